@@ -28,6 +28,10 @@ def slotsStmt : MStmtC → List Slot
   | .memCopy d s n => [d, s, n]
   | .memFill d v n => [d, v, n]
   | .memInit _ d s n => [d, s, n]
+  | .rmw dst _ a _ args => dst.toList ++ a :: args
+  | .notify dst a _ c => [dst, a, c]
+  | .wait dst a _ e t _ => [dst, a, e, t]
+  | .fence => []
   | .call res _ args => res.toList ++ args
   | .callIndirect res _ _ idx args => res.toList ++ idx :: args
   | .goto cp _ => cpSlots cp
@@ -333,6 +337,13 @@ theorem instr_decls (ctx : Ctx) : ∀ (i : EInstr) (s s' : St) (out : List MStmt
   | .memoryFill, s, s', out, dead, hc, hw, hd => by decl_simple
   | .memoryInit seg, s, s', out, dead, hc, hw, hd => by decl_simple
   | .dataDrop seg, s, s', out, dead, hc, hw, hd => by decl_simple
+  | .atomicLoad o off, s, s', out, dead, hc, hw, hd => by decl_simple
+  | .atomicStore o off, s, s', out, dead, hc, hw, hd => by decl_simple
+  | .atomicRmw o off, s, s', out, dead, hc, hw, hd => by decl_simple
+  | .atomicCmpxchg o off, s, s', out, dead, hc, hw, hd => by decl_simple
+  | .atomicFence, s, s', out, dead, hc, hw, hd => by decl_simple
+  | .atomicNotify off, s, s', out, dead, hc, hw, hd => by decl_simple
+  | .atomicWait b off, s, s', out, dead, hc, hw, hd => by decl_simple
   | .call fn, s, s', out, dead, hc, hw, hd => by
     simp only [compileInstr, bind, Except.bind] at hc
     repeat' (split at hc)
